@@ -26,10 +26,12 @@ pub(crate) fn update_backtracks<A>(dfa: &mut DFA<StateIdx, A>) {
         // Did we visit the state, with the right backtrack state?
         match visited.entry(state) {
             Entry::Occupied(mut entry) => {
-                if *entry.get() == backtrack {
+                // A state that needs to backtrack on one path needs to backtrack regardless of the
+                // other paths leading to it: only revisit when the property changes to `true`.
+                if *entry.get() || !backtrack {
                     continue;
                 }
-                entry.insert(backtrack);
+                entry.insert(true);
             }
             Entry::Vacant(entry) => {
                 entry.insert(backtrack);
